@@ -304,11 +304,18 @@ def r_aggregate_conversion(ck: Checker) -> None:
     ck.add("anonymous variables of positive literals become fresh variables", len(mk) >= 1, func, func.node, f"make_unique calls {len(mk)}", "`{p(_)}` counts distinct p atoms: each `_` must become its own tuple variable")
     ro = ck.func("normalize:replace_old_aggregates")
     itr = ck.interp(ro)
+    sites: dict[int, ast.Call] = {}
     for callee, cond in (("_convert_old_agg", "{b}.ast_type == ASTType.Literal and {b}.atom.ast_type == ASTType.Aggregate"),
                          ("_convert_count_to_sum", "{b}.ast_type == ASTType.Literal and {b}.atom.ast_type == ASTType.BodyAggregate and {b}.atom.function == AggregateFunction.Count")):
         cs = resolved_calls(ck.prg, ro, f"ngo.normalize:{callee}")
+        if not cs and not ck.prg.has_func(f"normalize:{callee}") and callee == "_convert_count_to_sum":
+            # the helper was folded into its caller: the rebuilt aggregate is the site, its receiver the converted atom
+            cs = [ast.Call(func=ast.Name("folded", ast.Load()), args=[c.func.value], keywords=[]) for c in attr_calls(ro, "update") if kwarg(c, "function") is not None]  # type: ignore[attr-defined]
+            for fake, real in zip(cs, [c for c in attr_calls(ro, "update") if kwarg(c, "function") is not None]):
+                sites[id(fake)] = real
         ck.need(len(cs) == 1, f"replace_old_aggregates calls {callee}")
         b = unparse(cs[0].args[0]).removesuffix(".atom")
+        cs = [sites.get(id(cs[0]), cs[0])]
         ck.guard(f"{callee} only for its own kind", ro, cs[0], cond.format(b=b), "")
 
 
